@@ -24,9 +24,12 @@ import (
 	"net/http"
 	"net/http/httptest"
 	"net/url"
+	"os"
 	"reflect"
+	goruntime "runtime"
 	"strconv"
 	"strings"
+	"sync"
 
 	"github.com/go-openapi/loads"
 	"github.com/go-openapi/runtime"
@@ -66,6 +69,9 @@ type Decl struct {
 	Def          []string // default: one literal text (scalars) or the item texts (arrays)
 	AllowEmpty   bool
 	Val          Validation
+	// Aux: number of further optional integer QUERY parameters aux1..auxN declared on the same operation (concurrent
+	// cases: an operation with several query parameters); they are sent by the requests but not observed.
+	Aux int
 }
 
 type Pair struct {
@@ -92,7 +98,7 @@ func (v Validation) JSON() M {
 
 func (d Decl) JSON() M {
 	return M{"in": d.In, "enc": d.Enc, "name": trace.B(d.Name), "type": d.Type, "format": d.Format, "itype": d.IType, "iformat": d.IFmt,
-		"cf": d.CF, "required": d.Required, "hasdef": d.HasDef, "def": trace.BB(d.Def), "allowEmpty": d.AllowEmpty, "val": d.Val.JSON()}
+		"cf": d.CF, "required": d.Required, "hasdef": d.HasDef, "def": trace.BB(d.Def), "allowEmpty": d.AllowEmpty, "val": d.Val.JSON(), "aux": d.Aux}
 }
 
 func pairsJSON(in []Pair) []M {
@@ -126,7 +132,11 @@ func strs(v any) []string {
 func declFrom(v any) Decl {
 	m := drv.Map(v)
 	vm := drv.Map(m["val"])
-	return Decl{In: drv.Str(m["in"]), Enc: drv.Str(m["enc"]), Name: trace.Str(m["name"]), Type: drv.Str(m["type"]), Format: drv.Str(m["format"]),
+	aux := 0
+	if x, ok := m["aux"]; ok {
+		aux = drv.Int(x)
+	}
+	return Decl{Aux: aux, In: drv.Str(m["in"]), Enc: drv.Str(m["enc"]), Name: trace.Str(m["name"]), Type: drv.Str(m["type"]), Format: drv.Str(m["format"]),
 		IType: drv.Str(m["itype"]), IFmt: drv.Str(m["iformat"]), CF: drv.Str(m["cf"]), Required: drv.Bool(m["required"]),
 		HasDef: drv.Bool(m["hasdef"]), Def: strs(m["def"]), AllowEmpty: drv.Bool(m["allowEmpty"]),
 		Val: Validation{K: drv.Str(vm["k"]), HasMin: drv.Bool(vm["hasmin"]), HasMax: drv.Bool(vm["hasmax"]), Min: trace.Str(vm["min"]),
@@ -263,18 +273,61 @@ func (d Decl) consumes() string {
 	return "application/x-www-form-urlencoded"
 }
 
-type apiInst struct {
-	handler http.Handler
-	ran     *bool
-	got     *map[string]interface{}
+// slot receives what the recording handler saw for one request.
+type slot struct {
+	ran bool
+	got map[string]interface{}
 }
+
+// apiInst is one served declaration.  The operation handler gets no request, so it finds the slot of the request it is
+// serving through the goroutine that serves it (direct ServeHTTP calls run the handler on the caller's goroutine); this
+// keeps concurrent requests apart.  Requests sent over the wire run on a server goroutine and are strictly sequential:
+// they use the fallback slot.
+type apiInst struct {
+	handler  http.Handler
+	cur      sync.Map // goroutine id -> *slot
+	fallback *slot
+}
+
+func (a *apiInst) slotOfCaller() *slot {
+	if v, ok := a.cur.Load(gid()); ok {
+		return v.(*slot)
+	}
+	return a.fallback
+}
+
+// gid returns the id of the calling goroutine (first line of its stack trace: "goroutine 123 [running]:").
+func gid() uint64 {
+	var b [64]byte
+	n := goruntime.Stack(b[:], false)
+	var id uint64
+	for _, ch := range b[len("goroutine "):n] {
+		if ch < '0' || ch > '9' {
+			break
+		}
+		id = id*10 + uint64(ch-'0')
+	}
+	return id
+}
+
+// yieldLogger turns every debug log call of the middleware into a scheduling point (concurrent cases only).
+type yieldLogger struct{}
+
+func (yieldLogger) Printf(string, ...interface{}) {}
+func (yieldLogger) Debugf(string, ...interface{}) { goruntime.Gosched() }
 
 var apiCache = map[string]*apiInst{}
 
-func buildAPI(d Decl) (*apiInst, error) {
+func buildAPI(d Decl) (*apiInst, error) { return buildAPIOpt(d, true) }
+
+func buildAPIOpt(d Decl, cached bool) (*apiInst, error) {
+	params := []any{d.paramJSON()}
+	for k := 1; k <= d.Aux; k++ {
+		params = append(params, map[string]any{"name": "aux" + strconv.Itoa(k), "in": "query", "type": "integer", "format": "int64"})
+	}
 	op := map[string]any{
 		"operationId": "op",
-		"parameters":  []any{d.paramJSON()},
+		"parameters":  params,
 		"responses":   map[string]any{"200": map[string]any{"description": "ok", "schema": map[string]any{"type": "string"}}},
 	}
 	if d.In == "formData" {
@@ -297,7 +350,7 @@ func buildAPI(d Decl) (*apiInst, error) {
 		return nil, err
 	}
 	key := string(raw)
-	if a, ok := apiCache[key]; ok {
+	if a, ok := apiCache[key]; ok && cached {
 		return a, nil
 	}
 	ld, err := loads.Analyzed(json.RawMessage(raw), "")
@@ -308,11 +361,15 @@ func buildAPI(d Decl) (*apiInst, error) {
 	noop := runtime.ConsumerFunc(func(io.Reader, interface{}) error { return nil })
 	api.RegisterConsumer("application/x-www-form-urlencoded", noop)
 	api.RegisterConsumer("multipart/form-data", noop)
-	a := &apiInst{ran: new(bool), got: new(map[string]interface{})}
+	a := &apiInst{}
 	record := runtime.OperationHandlerFunc(func(params interface{}) (interface{}, error) {
-		*a.ran = true
+		st := a.slotOfCaller()
+		if st == nil {
+			panic("c03: handler called outside a served request")
+		}
+		st.ran = true
 		if m, ok := params.(map[string]interface{}); ok {
-			*a.got = m
+			st.got = m
 		}
 		return "ok", nil
 	})
@@ -322,6 +379,9 @@ func buildAPI(d Decl) (*apiInst, error) {
 	}
 	ctx := middleware.NewContext(ld, api, nil)
 	a.handler = ctx.APIHandler(nil)
+	if !cached {
+		return a, nil
+	}
 	if len(apiCache) > 2048 {
 		apiCache = map[string]*apiInst{}
 	}
@@ -586,18 +646,19 @@ func obsValue(x interface{}) (M, string) {
 }
 
 func serve(a *apiInst, d Decl, rq Req) (ev M) {
-	*a.ran = false
-	*a.got = nil
+	st := &slot{}
 	ev = M{"status": 0, "ran": false, "panic": false, "has": false, "val": emptyVal("none"), "dyn": "", "msg": []int{}}
 	var status int
 	var body []byte
 	if rq.Wire && d.In != "formData" && len(rq.Other) == 0 {
 		var err error
+		a.fallback = st
 		status, body, err = wireRoundTrip(a.handler, d, rq)
+		a.fallback = nil
 		if err != nil {
 			// net/http recovers a panicking handler and drops the connection: no response
 			ev["panic"] = true
-			ev["ran"] = *a.ran
+			ev["ran"] = st.ran
 			ev["msg"] = trace.B(clip("no response: " + err.Error()))
 			return ev
 		}
@@ -607,6 +668,9 @@ func serve(a *apiInst, d Decl, rq Req) (ev M) {
 			panic(fmt.Sprintf("c03: cannot render request: %v", err))
 		}
 		rec := httptest.NewRecorder()
+		g := gid()
+		a.cur.Store(g, st)
+		defer a.cur.Delete(g)
 		panicked := func() (p bool) {
 			defer func() {
 				if x := recover(); x != nil {
@@ -619,15 +683,15 @@ func serve(a *apiInst, d Decl, rq Req) (ev M) {
 		}()
 		if panicked {
 			ev["panic"] = true
-			ev["ran"] = *a.ran
+			ev["ran"] = st.ran
 			return ev
 		}
 		status, body = rec.Code, rec.Body.Bytes()
 	}
 	ev["status"] = status
-	ev["ran"] = *a.ran
-	if *a.ran && *a.got != nil {
-		if x, ok := (*a.got)[d.Name]; ok {
+	ev["ran"] = st.ran
+	if st.ran && st.got != nil {
+		if x, ok := st.got[d.Name]; ok {
 			ev["has"] = true
 			ev["val"], ev["dyn"] = obsValue(x)
 		}
@@ -664,6 +728,23 @@ func execute(c *drv.Ctx, desc M) bool {
 	}
 	d := declFrom(desc["decl"])
 	nontrivial := false
+	conc, procs := 0, 0
+	if v, ok := desc["conc"]; ok {
+		conc = drv.Int(v)
+	}
+	if v, ok := desc["procs"]; ok {
+		procs = drv.Int(v)
+	}
+	if conc > 1 && drv.Bool(desc["yield"]) {
+		// debug mode is read from the environment when the context, router and binders are constructed
+		os.Setenv("SWAGGER_DEBUG", "1")
+		prev := middleware.Logger
+		middleware.Logger = yieldLogger{}
+		defer func() {
+			os.Unsetenv("SWAGGER_DEBUG")
+			middleware.Logger = prev
+		}()
+	}
 	var a *apiInst
 	var buildErr error
 	func() {
@@ -672,20 +753,55 @@ func execute(c *drv.Ctx, desc M) bool {
 				buildErr = fmt.Errorf("panic: %v", p)
 			}
 		}()
-		a, buildErr = buildAPI(d)
+		a, buildErr = buildAPIOpt(d, conc <= 1)
 	}()
 	if buildErr != nil {
 		// the declaration is not accepted by the spec loader / router: one event, no requests
 		c.W.Event("build", M{"ok": false, "msg": trace.B(clip(buildErr.Error()))})
 		return false
 	}
-	for i, rv := range drv.List(desc["reqs"]) {
-		rq := reqFrom(rv)
-		ev := serve(a, d, rq)
+	var reqs []Req
+	for _, rv := range drv.List(desc["reqs"]) {
+		reqs = append(reqs, reqFrom(rv))
+	}
+	emit := func(i int, ev M) {
 		ev["i"] = i + 1
 		c.W.Event("bind", ev)
 		if drv.Bool(ev["ran"]) || drv.Int(ev["status"]) == 422 {
 			nontrivial = true
+		}
+	}
+	if conc <= 1 {
+		for i, rq := range reqs {
+			emit(i, serve(a, d, rq))
+		}
+		return nontrivial
+	}
+	// concurrent mode: batches of conc requests served simultaneously by conc goroutines against the ONE handler of the
+	// declaration, at GOMAXPROCS procs; every request keeps its own event, emitted in request order after its batch
+	if procs > 0 {
+		defer goruntime.GOMAXPROCS(goruntime.GOMAXPROCS(procs))
+	}
+	evs := make([]M, len(reqs))
+	for lo := 0; lo < len(reqs); lo += conc {
+		hi := lo + conc
+		if hi > len(reqs) {
+			hi = len(reqs)
+		}
+		start := make(chan struct{})
+		var wg sync.WaitGroup
+		for i := lo; i < hi; i++ {
+			wg.Add(1)
+			go func(i int) {
+				defer wg.Done()
+				<-start
+				evs[i] = serve(a, d, reqs[i])
+			}(i)
+		}
+		close(start)
+		wg.Wait()
+		for i := lo; i < hi; i++ {
+			emit(i, evs[i])
 		}
 	}
 	return nontrivial
